@@ -242,7 +242,7 @@ POST = [
     "a",
     "if a > 0\n  return a\nend\n0",
     "do\n  return a\nfinally\n  println(\"fin\")\nend",
-    "l := [\"p\", \"q\"][0...1]\nprintln(l.inspect)\nh := %{ \"k\" => \"v\" }[\"k\"]\nprintln(h.inspect)\na",
+    "var l: ArrayList[String] = [\"p\", \"q\"][0...1]\nprintln(l.inspect)\na",
 ]
 INSERTS = [
     "zz := 7", "zz := \"s\"", "zz := -> 1", "zz := |q: Int|: Int -> q + 1", "zz := ||: Int ->\n  return 5\nend",
